@@ -410,7 +410,13 @@ def text_of(n):
 
 
 def texts(T):
-    return [text_of(n) for n in ((0, 1, 2, 7, 200) if not T else (0, 1, 2, 3, 7, 31, 32, 127, 128, 199, 200))]
+    out = [text_of(n) for n in ((0, 1, 2, 7, 200) if not T else (0, 1, 2, 3, 7, 31, 32, 127, 128, 199, 200))]
+    # every class of *first* character (the octets right after the optional header): low byte with the top bit set, high byte with
+    # the top bit set, NUL, 0x7F / 0x80 / 0xFF boundaries, a lone character and the same followed by ASCII
+    for first in ("\u00e9", "\u0080", "\u00ff", "\u65e5", "\u8080", "\uff80", "\u007f", "\u0100", "\u0000"):
+        out.append(first)
+        out.append(first + "abc")
+    return out
 
 
 def identifiers(T):
